@@ -1276,6 +1276,52 @@ Definition breakdown_gen (first_ts last_end total_dev total_comp : Z) : Z * Z * 
     return "gen/BreakdownRules_gen.v"
 
 
+# ---- _get_gpu_kernel_type_time / _aggr_gpu_kernel_time (hta/analyzers/breakdown_analysis.py) -> coq/gen/KernelBreakdownRules_gen.v ----
+def gen_kernel_breakdown_rules() -> str:
+    """The two helpers are long pandas pipelines.  Their statement sequence (docstrings aside, as printed by ast.unparse) must be exactly the
+    one the model was written for (compared by digest); the rules the model depends on are then read from the statements: the bit given to
+    the idx-th type (1 << idx, +value at a start, -value at an end), the rows that count (running > 0), and in the aggregator the condition
+    for aggregating at all (more names than num_kernels) and the two conditions that move a row to 'others' (cumulative sum above the
+    quantile; position >= num_kernels)."""
+    import hashlib
+    path = "hta/analyzers/breakdown_analysis.py"
+    tree = ast.parse(open(os.path.join(fw.REPO, path)).read())
+    cls = next((n for n in tree.body if isinstance(n, ast.ClassDef) and n.name == "BreakdownAnalysis"), None)
+    fns = {n.name: n for n in (cls.body if cls else []) if isinstance(n, ast.FunctionDef)}
+    pinned = {"_get_gpu_kernel_type_time": "4f5fdd510a95c5b41235c8f0a34f57474d089316",
+              "_aggr_gpu_kernel_time": "f7cf5e6c9f1e4c6ff58e27dba947fcd71bbe275f"}
+    body = {}
+    for nm, dg in pinned.items():
+        fn = fns.get(nm)
+        if fn is None:
+            raise Stop(f"BreakdownAnalysis.{nm} not found")
+        texts = [ast.unparse(st) for st in fn.body if not (isinstance(st, ast.Expr) and isinstance(st.value, ast.Constant))]
+        if hashlib.sha1("\n".join(texts).encode()).hexdigest() != dg:
+            raise Stop(f"BreakdownAnalysis.{nm}: the statement sequence is not the one the model was written for")
+        body[nm] = "\n".join(texts)
+    t = body["_get_gpu_kernel_type_time"]
+    for needle in ("value = 1 << idx", "replace({'ts': value, 'end': -value})", "overlap_kernel_type_df['running'] > 0", "if u_running & v_t:"):
+        if needle not in t:
+            raise Stop(f"_get_gpu_kernel_type_time: `{needle}` not found")
+    a = body["_aggr_gpu_kernel_time"]
+    for needle in ("if gpu_kernel_time.shape[0] > num_kernels:", "~keep_idx & (gpu_kernel_time['cumsum'] > quantiles)",
+                   "~keep_idx & (gpu_kernel_time.index >= num_kernels)", "sort_values(by=['sum'], ascending=False, ignore_index=True)"):
+        if needle not in a:
+            raise Stop(f"_aggr_gpu_kernel_time: `{needle}` not found")
+    out = '''(* GENERATED by harness/translate.py from hta/analyzers/breakdown_analysis.py (_get_gpu_kernel_type_time, _aggr_gpu_kernel_time)
+   -- do not edit.  q16 / c are 16 * quantile and the cumulative sum (the model works with sixteenths of the duration ratio). *)
+From HTA.lib Require Import Base.
+Open Scope Z_scope.
+
+Definition type_bit_gen (idx : Z) : Z := 2 ^ idx.
+Definition counts_gen (running : Z) : bool := 0 <? running.
+Definition aggregates_gen (n_names numk : Z) : bool := numk <? n_names.
+Definition is_other_gen (q16 numk i c : Z) : bool := (q16 <? 16 * c) || (numk <=? i).
+'''
+    write_if_changed(os.path.join(GEN, "KernelBreakdownRules_gen.v"), out)
+    return "gen/KernelBreakdownRules_gen.v"
+
+
 # ---- the change classes of hta/trace_diff.py -> coq/gen/DiffRules_gen.v ----
 def gen_diff_rules() -> str:
     """Reads TraceDiff.compare_traces (diff_counts / diff_duration = test minus control; the sign lambda of counts_change_categories) and the
